@@ -171,6 +171,7 @@ def _sym_server_state(rig, bufm, unset):
         from_items = sx.items(sx.fresh_bytes("buf", bufm))
         srv._buffer = _ba(from_items)
     srv._toggle = sx.ite(sx.fresh_bool("tog"), 0x10, 0)
+    srv._downloading = bool(sx.choice(2, "downloading")) and bufm is not None
     if not unset:
         srv._index = sx.fresh_int("sidx", 0, 0xFFFF)
         srv._subindex = sx.fresh_int("ssub", 0, 0xFF)
@@ -247,6 +248,32 @@ def robust_history(k, tail, ccs0=None):
     sx.reach("robust-history")
 
 
+def stray_after(n, k):
+    """after a completed download, frames that do not initiate a download cannot change stored values"""
+    rig = ServerRig(small_od())
+    cli = RefClient(rig.deliver, "C02")
+    p = sx.fresh_bytes("p", n)
+    r = cli.download(0x2000, 0, sx.items(p), "seg-size" if n > 4 else "exp-size")
+    sx.prove(r is None, "download refused", "C02/stray/prepare")
+    for i in range(k):
+        f = sx.fresh_bytes("f%d" % i, 8)
+        sx.assume((sx.items(f)[0] >> 5) != 1)          # anything but an initiate-download request
+        try:
+            rig.deliver(f)
+        except Exception as e:
+            sx.fail("server raised %s" % C.exc_name(e), "C02/stray/raises")
+            return
+    sx.prove(sx.eq_bytes(rig.node.data_store[0x2000][0], p), "a frame that starts no download changed the stored value",
+             "C02/stray/stored")
+    res = cli.upload(0x2000, 0)
+    ok = res is not None and not isinstance(res, Abort)
+    sx.prove(ok, "upload after stray frames refused", "C02/stray/upload")
+    if ok:
+        sx.prove(sx.eq_bytes(sx.mkbytes(res[0]), p), "upload after stray frames returns the downloaded bytes",
+                 "C02/stray/value")
+    sx.reach("stray")
+
+
 def interleaved(n):
     """a valid segmented transfer interrupted by a restart: a new initiate mid-transfer restarts cleanly"""
     rig = ServerRig(sdo_od())
@@ -314,6 +341,9 @@ def jobs(tier):
                     out.append(dict(func="robust_history", params=dict(k=k, tail=tail, ccs0=c), weight=40 ** k))
     for n in (5, 7, 8, 14):
         out.append(dict(func="interleaved", params=dict(n=n)))
+    for n in (3, 10, 14):
+        for k in (1, 2):
+            out.append(dict(func="stray_after", params=dict(n=n, k=k), weight=30 ** k))
     return out
 
 
@@ -325,7 +355,7 @@ META = dict(
                "inductive robustness step (arbitrary frame of 1..8 symbolic bytes from an arbitrary server state, "
                "including the freshly created one) and bounded histories of arbitrary frames from a fresh node.",
     level_note="Server state invariant for the step: _buffer is None or a bytearray, _toggle in {0,0x10}, "
-               "_index/_subindex unset (fresh node) or any 16/8-bit value. Trusted: z3, struct/bytes/dict models "
+               "_downloading any flag consistent with it, _index/_subindex unset (fresh node) or any 16/8-bit value. Trusted: z3, struct/bytes/dict models "
                "(native witness runs).",
     bounds=dict(quick="value lengths 0..16,20,21,22,28,64; 8 numeric types over their whole range; record/array members; "
                       "robust step: frame length 1..8 x buffer length {None,0,1,6,7,8,15} x index set/unset; histories "
@@ -338,7 +368,7 @@ META = dict(
     stubs=["struct", "bytes/bytearray", "dict displays -> SymDict", "logging", "Network.send_message replaced on the instance"],
     required_reach=["upload-callback", "upload-store", "upload-value", "upload-default", "upload-empty",
                     "upload-segmented", "download-exp-size", "download-exp-nosize", "download-seg-size",
-                    "download-seg-nosize", "robust-step", "abort-request", "robust-history", "interleaved"],
+                    "download-seg-nosize", "robust-step", "abort-request", "robust-history", "interleaved", "stray"],
     limits=dict(quick=dict(max_decisions=20000), thorough=dict(max_decisions=20000, job_timeout_s=3000)),
     validate_every=dict(quick=5, thorough=50),
     max_validate=dict(quick=60, thorough=60),
